@@ -129,8 +129,9 @@ CHECKS = {
               "analyze_accumulator is compared with the realised / vertex maximum per channel. Bridge theorems (QTools/Po2Bridge.v, QTools/LayerMap.v): every "
               "output of the quantized_bits / quantized_relu / quantized_po2 / quantized_relu_po2 models is a member of the qtools type reported for the quantizer. "
               "Kernel families include power-of-two kernels with max_value that is not a power of two and with max_value <= 1 (no exponent sign bit), activations include "
-              "power-of-two and leaky ones; directed single-layer corner models. Four genuine defects repaired (two in analyze_accumulator, get_exp, po2_to_qbits)."),
-        design_ref="DESIGN.md section 5 C18, section 10.4, 10.8",
+              "power-of-two and leaky ones; directed single-layer corner models. Four genuine defects repaired (two in analyze_accumulator, get_exp, po2_to_qbits)."
+              " The dense / convolution branch of generate_layer_data_type_map is REGENERATED on every run (tools/translate/layermapgen.py -> coq/gen/LayerMapGen.v: multiplier, kernel accumulator over prod(kernel.shape[:-1]) resp. prod(kernel.shape[:-2]) terms, bias adder exactly with a bias, output type = accumulator.output); Link/LayerMapLink.v proves the stored entry equal to layer_mul / layer_acc, and C18_code_preactivation_fits_stored_accumulator_* restate the fixed-point pre-activation theorems about it."),
+        design_ref="DESIGN.md section 5 C18, section 10.4, 10.8, 10.10",
         note=(TB_COMMON + "qtools' graph builder needs four Keras-2 accessors that Keras 3 dropped (known finding); the harness supplies them as "
               "pure accessors and qtools runs unmodified. Po2 / binary / ternary kernels are covered by the operator theorems of C16/C17 and by "
               "the membership runs here, not by a layer-level theorem. Tensors come from eager sub-models."),
@@ -248,8 +249,9 @@ CHECKS = {
               "values (Coq, vm_compute obligations). (2) Bit-identical predictions through Keras (de)serialisation and HDF5 cannot be "
               "expressed in an executable Gallina model: that half is decided by running the three routes (JSON rebuild, clone_model, .h5 "
               "save + load_qmodel without custom objects) on random quantized models over the runnable layer classes and a 15 x 13 quantizer "
-              "option set, comparing eager outputs bitwise and get_quantizers() strings. One genuine defect repaired (fix: commit)."),
-        design_ref="DESIGN.md section 5 C13, section 8, section 10",
+              "option set, comparing eager outputs bitwise and get_quantizers() strings. One genuine defect repaired (fix: commit)."
+              " The get_config of every quantized LAYER class is regenerated too (tools/translate/layermeta.py -> coq/gen/LayerMeta.v): every *_quantizer constructor parameter is a configuration key of the class or of the quantized class it extends, and every quantizer / activation key is read from the attribute of its own name (vm_compute over the regenerated table). Models with frozen layers (none / one / all) and BatchNormalization between quantized layers are generated."),
+        design_ref="DESIGN.md section 5 C13, section 8, section 10, section 10.10",
         note=(TB_COMMON + "The prediction-preservation half is translation validation (programs = models run, disagreements_checked = route runs). "
               "HDF5, Keras deserialisation and eager execution are trusted runtime. Layers that do not build under the pinned Keras 3 "
               "(QBatchNormalization, folded, recurrent wrappers) are not generated."),
@@ -284,8 +286,9 @@ CHECKS = {
               "quantizers against conv -> batch norm computed with TensorFlow ops (2e-4 relative). In addition the REAL layer classes are built "
               "through a Keras-2 style batch-norm stand-in installed in the layers namespace of the two qkeras modules (bookkeeping only): layer(x, training=False), "
               "get_folded_weights, and the real bn_folding_utils.unfold_model on functional models of one or two folded layers (classes, folded weights, "
-              "quantizers and predictions of the unfolded model). One genuine defect repaired (center=False, fix: f652379)."),
-        design_ref="DESIGN.md section 5 C15, section 10",
+              "quantizers and predictions of the unfolded model). One genuine defect repaired (center=False, fix: f652379)."
+              " get_folded_weights of both folded classes is REGENERATED on every run (tools/translate/foldgen.py -> coq/gen/FoldGen.v, eight option combinations of use_bias / center / scale); Link/FoldLink.v proves it equal to inv / folded_bias of BN/Fold.v with absent parameters at their neutral values, and C15_code_*_folded_weights_are_conv_then_batchnorm state the folding equivalence about the code's own folded kernel and bias."),
+        design_ref="DESIGN.md section 5 C15, section 10, section 10.10",
         note=(TB_COMMON + "Convolution homogeneity and rsqrt are Section hypotheses/variables. The folded classes and convert/unfold utilities do "
               "not run under the pinned Keras 3 (two known findings): the anchored method bodies are executed on a duck-typed self."),
         technique="Coq proof (field identity with the convolution as a Section variable) + differential correspondence through unbound methods"),
